@@ -165,7 +165,9 @@ func mapDriver(size, threads, maxChunk int, viaPromise bool) func() vrt.Run {
 				set[i] = i
 			}
 			if viaPromise {
-				r := <-concurrent.PromiseMap(set, threads, maxChunk).Wait()
+				w := concurrent.PromiseMap(set, threads, maxChunk).Wait()
+				vrt.Recv(w) // the listener's receive is a step of its own: other listeners may call Wait in between, and a channel nobody fills is a deadlock, not a hang
+				r := <-w
 				res, _ = r.Value.([]interface{})
 				err = r.Err
 				return
@@ -213,6 +215,60 @@ func mapDriver(size, threads, maxChunk int, viaPromise bool) func() vrt.Run {
 	}
 }
 
+// mapPair: two goroutines call Map at the same time, each on a set of its own (whatever Map and the
+// helpers it calls keep outside their own frames is then used by both).
+func mapPair(size, threads, maxChunk int) func() vrt.Run {
+	return func() vrt.Run {
+		var res [2][]interface{}
+		var errs [2]error
+		return vrt.Run{Body: func() {
+			var hs []vrt.Handle
+			for g := 0; g < 2; g++ {
+				g := g
+				hs = append(hs, vrt.Go(func() {
+					set := make(ints, size+g)
+					for i := range set {
+						set[i] = i
+					}
+					res[g], errs[g] = concurrent.Map(set, threads, maxChunk)
+				}))
+			}
+			for _, h := range hs {
+				vrt.Join(h)
+			}
+		}, Verdict: func(r *vrt.Result) (string, string, string) {
+			sig := ""
+			msg := ""
+			for g := 0; g < 2; g++ {
+				var chunks []string
+				var all []int
+				for _, v := range res[g] {
+					c, _ := v.([]int)
+					chunks = append(chunks, fmt.Sprint(c))
+					all = append(all, c...)
+				}
+				sort.Strings(chunks)
+				sig += strings.Join(chunks, "") + fmt.Sprint(errs[g]) + "|"
+				sort.Ints(all)
+				ok := len(all) == size+g && errs[g] == nil
+				for i, v := range all {
+					ok = ok && v == i
+				}
+				if !ok && msg == "" {
+					msg = fmt.Sprintf("Map call %d of two concurrent ones: chunks %v (error %v) do not partition 0..%d", g, chunks, errs[g], size+g-1)
+				}
+			}
+			if cl, m := bad(r); cl != "" {
+				return "map/" + cl, m, sig
+			}
+			if msg != "" {
+				return "map/partition", msg, sig
+			}
+			return "", "", sig
+		}}
+	}
+}
+
 // promise driver: pre operations run by the main thread first, then the
 // concurrent operations each in its own thread.  Operations: "F<v>" Fulfill(v),
 // "X<v>" Fail(v, err), "N" Fulfill(nil), "W" Wait.  (N is never combined with X: Fail looks at the content
@@ -244,7 +300,9 @@ func promise(pre []string, par []string) func() vrt.Run {
 					out[i] = "err"
 				}
 			case 'W':
-				r := <-p.Wait()
+				w := p.Wait()
+				vrt.Recv(w) // the listener's receive is a step of its own: other listeners may call Wait in between, and a channel nobody fills is a deadlock, not a hang
+				r := <-w
 				out[i] = fmt.Sprint(r.Value, r.Err)
 			}
 		}
@@ -366,6 +424,8 @@ func drivers(quick bool) []conc.Driver {
 		cfg0.Horizon = 1000000
 		ds = append(ds, conc.Driver{Name: fmt.Sprintf("map-s%d-t%d-c1-canonical", n, 2+n%2), Cfg: cfg0, Mk: mapper(n, 2+n%2, 1)})
 	}
+	// two Map calls at the same time (sets of 1 and 2 elements, one worker each)
+	add("map-pair-s1-t1-c1", mapPair(1, 1, 1))
 	add("promisemap-s0-t1-c1", mapDriver(0, 1, 1, true))
 	add("promisemap-s1-t2-c1", mapDriver(1, 2, 1, true))
 	if !quick {
@@ -441,7 +501,9 @@ func seqLaw(c *enum.Ctx, k seqCase) {
 					if winner == "" {
 						continue // would block: not part of a sequential history
 					}
-					r := <-p.Wait()
+					w := p.Wait()
+					vrt.Recv(w) // the listener's receive is a step of its own: other listeners may call Wait in between, and a channel nobody fills is a deadlock, not a hang
+					r := <-w
 					if r.Value != int(winner[1]-'0') {
 						fail("promise-seq/value-changed", "step %d: Wait returned value %v, the promise was settled by %s", i, r.Value, winner)
 						return
